@@ -143,7 +143,7 @@ def hostPred (st : HostSt) (c : UInt8) : HostSt × Bool :=
     if st.nameLen != 1 then ({ st with formatErr := true }, false)
     else ({ st with onlyNumeric := false }, true)
   else if c == 46 then ({ st with labelLen := 0 }, true)
-  else if st.labelLen ≥ 63 - 1 then ({ st with formatErr := true }, false)
+  else if st.labelLen ≥ 63 - 1 && (c == 45 || isAlpha c || isDigit c) then ({ st with formatErr := true }, false)
   else if (c == 95 && st.labelLen == 0) || (c == 45 && st.labelLen > 0) || isAlpha c then
     ({ st with onlyNumeric := false, labelLen := st.labelLen + 1 }, true)
   else if isDigit c then ({ st with labelLen := st.labelLen + 1 }, true)
